@@ -1,18 +1,22 @@
 """C20 - inventory, asset and transfer codecs round-trip"""
-from contracts import c20_native, c20_contracts
+from contracts import c20_native, c20_contracts, c20b_contracts
 
 PID = "C20"
 META = {
     "level": "other",
     "explanation": (
         "P (proved on the real body of Xfer.__init__): the chunks cut from a payload are consecutive slices whose concatenation is the "
-        "length-prefixed payload (ghosts _full/_flat), every chunk but the last has the full chunk size, chunk numbering is dense from 0. "
+        "length-prefixed payload (ghosts _full/_flat), every chunk but the last has the full chunk size, chunk numbering is dense from 0; "
+        "XferManager._handle_send_xfer_packet and TransferManager._handle_transfer_packet - the arriving packet is filed under its own "
+        "number (packet 0 minus the 4-byte size hint), only the end marker sets the expected count (its number + 1), the transfer is "
+        "marked done iff it was not done and the number of stored chunks equals the expected count, without turbo exactly that packet is "
+        "acknowledged. "
         "B (bounded, NOT proved): inventory models in {line format, legacy LLSD, AIS LLSD} at node and model level with every enum "
         "member and optional-field combination; animations (both layout versions), mesh assets (LOD subsets, skin, physics, weights); "
         "Xfer and Transfer reassembly for payload sizes around every chunk boundary (1-5 chunks) x all arrival sequences with "
         "duplicates to a stated extra depth, through the real managers and the LLUDP codec. Three defects fixed, one recorded."),
     "trusted_base": [
-        "XferManager._handle_send_xfer_packet / reassemble_chunks / TransferManager: bounded tier only",
+        "reassemble_chunks (sorted concatenation) and the whole-history completion clause (all chunks up to the end-marked one): bounded tier only; the dict of chunks is an unmodelled container (len() = number of distinct keys is assumed, not proved)",
         "schema-driven (de)serialisers, llanim, mesh: bounded tier only (reflection over dataclass fields is out of the VC generator's reach)",
         "TemplateDataPacker.pack(len, MVT_S32) assumed to yield 4 bytes (checked natively in the bounded tier)",
     ],
@@ -21,6 +25,7 @@ META = {
 
 def register(reg):
     c20_contracts.register_p(reg, PID)
+    c20b_contracts.register_p2(reg, PID)
 
 
 BOUNDED = [c20_native.bounded_inventory, c20_native.bounded_animations, c20_native.bounded_meshes, c20_native.bounded_transfers]
